@@ -222,14 +222,15 @@ Definition update_ok_job (r : session) (sn : snapshot) (j : N) : bool :=
   match lookup j (sn_jobs sn) with
   | None => false
   | Some (x, b) =>
-    match r_st r j with
-    | NS => if memN j (r_placed r)
-            then jstate_eqb x SUB && (match b with [] => true | _ => false end)
-            else jstate_eqb x NS && eqsetN b (r_bl r j)
-    | SUB => (if memN j (r_seen r) then jstate_eqb x DONE else jstate_eqb x SUB)
-             && (match b with [] => true | _ => false end)
-    | DONE => jstate_eqb x DONE && (match b with [] => true | _ => false end)
-    end
+    if memN j (r_placed r)
+    then jstate_eqb x SUB && (match b with [] => true | _ => false end)
+    else
+      match r_st r j with
+      | NS => jstate_eqb x NS && eqsetN b (r_bl r j)
+      | SUB => (if memN j (r_seen r) then jstate_eqb x DONE else jstate_eqb x SUB)
+               && (match b with [] => true | _ => false end)
+      | DONE => jstate_eqb x DONE && (match b with [] => true | _ => false end)
+      end
   end.
 Definition snap_st (sn : snapshot) (j : N) : jstate :=
   match lookup j (sn_jobs sn) with Some (x, _) => x | None => NS end.
@@ -243,10 +244,11 @@ Definition step (sc : scenario) (s : state) (e : event) : option state :=
   match e with
   | ECreate p =>
     if negb (created s) then
-      let s1 := {| created := true; st := st s; bl := fun j => deps sc j; ids := []; next_index := 1;
-                   holder := None; marker := false; complete := false; canceled := false; rows := [];
-                   pending := []; processed := []; hpc := []; nodes := []; handed := []; indices := [];
-                   launched := []; completions := 0; setups := 0 |} in
+      let s1 := {| created := true; st := st s; bl := fun j => deps sc j; ids := ids s; next_index := next_index s;
+                   holder := None; marker := marker s; complete := complete s; canceled := canceled s;
+                   rows := rows s; pending := pending s; processed := processed s; hpc := hpc s;
+                   nodes := nodes s; handed := handed s; indices := indices s; launched := launched s;
+                   completions := completions s; setups := setups s |} in
       Some (with_holder s1 (Some (new_session p s1 true)))
     else None
   | ELoad p try promoted c x =>
